@@ -7,6 +7,7 @@ mod pull;
 mod puppet;
 mod report;
 mod rng;
+mod run_arity;
 mod run_churn;
 mod run_diff;
 mod run_indep;
@@ -144,6 +145,10 @@ fn check(o: &Opts) -> i32 {
             run_seq::run(o, &mut rep);
             if o.ops.is_none() || o.cases.is_none() {
                 run_seq::run_enum(o, &mut rep);
+            }
+            if o.prop == "C10" && o.ops.is_none() && o.cases.is_none() {
+                engines.push("E1a high arity (combine! of 9 and 12 members against the latest-value model)");
+                run_arity::run(o, &mut rep);
             }
             if matches!(o.prop.as_str(), "C12" | "C04") && o.ops.is_none() && o.cases.is_none() {
                 engines.push("E1c-churn (long attach/detach histories against a reference model)");
@@ -374,7 +379,7 @@ fn required_clauses(prop: &str) -> &'static [&'static str] {
         "C07" => &["c07.compare", "c07.closure-calls", "c07.take-complete", "c07.take-upstream-stop", "c07.upstream-complete", "tree.unary-instance-steps"],
         "C08" => &["c08.greeting", "c08.late-greeter-after-over", "data-sequence", "fanin.completion", "fanin.pull-reaches-member", "tree.merge-instance-steps"],
         "C09" => &["c09.boundary", "c09.outstanding-pull", "data-sequence", "fanin.completion", "tree.concat-instance-steps"],
-        "C10" => &["c10.greeting", "c10.all-ended-with-a-failure", "data-sequence", "fanin.completion", "fanin.pull-reaches-member", "tree.combine-instance-steps"],
+        "C10" => &["c10.greeting", "c10.arity-9-histories", "c10.arity-12-histories", "c10.high-arity-tuples-compared", "c10.all-ended-with-a-failure", "data-sequence", "fanin.completion", "fanin.pull-reaches-member", "tree.combine-instance-steps"],
         "C11" => &["c11.inner-emitted", "c11.switch", "c11.completion", "c11.pull-routing", "data-sequence", "tree.flatten-instance-steps"],
         "C12" => &["c12.attach", "c12.detach", "c12.fanout", "c12.resubscription", "churn.attach", "churn.datum-fanout", "churn.upstream-subscriptions"],
         "C13" => &["c13.solo-replays", "c13.threads.rounds-with-overlapping-subscriptions", "stage same source value subscribed repeatedly (concat)", "stage same source value subscribed repeatedly (flatten)"],
